@@ -192,6 +192,8 @@ type Eng struct {
 	closAssigned map[types.Object]bool
 	inlDepth     int
 	funcIndex    *funcIndex
+	lockObjs     map[string]types.Object
+	lockSites    int // lock/unlock events and calls of lock-taking methods examined (locks.go)
 	specPkgPath  string
 	recVar       types.Object
 	propID       string
@@ -262,7 +264,7 @@ func (e *Eng) oblige(st *State, kind, anchor, goal string, pos token.Pos) {
 	body := sb.String()
 	e.obls = append(e.obls, &Obligation{Name: name, Script: preambleFor(body) + body, Goal: goal, Pos: e.fset.Position(pos)})
 	// subsequent code may assume it (postconditions are checked independently of each other)
-	if kind != "ensures" && kind != "noescape" {
+	if kind != "ensures" && kind != "noescape" && kind != "onexit" {
 		e.assume(st, goal)
 	}
 }
@@ -768,6 +770,7 @@ func (e *Eng) merge(sts []*State) *State {
 			n.vars[k] = e.mergeVals(paths, vals)
 		}
 	}
+	e.mergeLocks(n, live, paths)
 	// heap base: identical bases are kept, otherwise the alternatives are concatenated under the path conditions
 	sameBase := true
 	for _, s := range live[1:] {
